@@ -145,3 +145,49 @@ Definition class_keys (targets : list str) (I : insts) : list str :=
     [_decide_type_elem] asks a [Literal] for [.iri] (AttributeError) *)
 Definition bad_triple (tau : str) (I : insts) (t : triple) : Prop :=
   dmem I (nid (ts t)) = true /\ tp t = tau /\ is_node (to t) = false.
+
+(** ** order of the keys
+
+    Python dictionaries keep insertion order and the later stages iterate over
+    them (the order reaches the output through stable sorts), so the profile's
+    key orders are part of its specification: always "first occurrence". *)
+
+(** does triple [t] concern instance [i] in direction [dir]? *)
+Definition touches (dir : direction) (t : triple) (i : str) : bool :=
+  match dir with
+  | Direct => str_eqb (nid (ts t)) i
+  | Inverse => match to t with ON o => str_eqb (nid o) i | OL _ _ => false end
+  end.
+
+(** properties of instance [i], in statement order, without repetition *)
+Definition inst_props (dir : direction) (G : graph) (i : str) : list str :=
+  uniq_first (map tp (filter (fun t => touches dir t i) G)).
+
+(** keys of instance [i] for property [p], in contribution order, without repetition *)
+Definition inst_keys (dir : direction) (tau : str) (I : insts) (G : graph) (i p : str) : list str :=
+  uniq_first (List.concat (map (fun t => contrib dir tau I t i p) G)).
+
+(** class level: instance by instance in the order of [I] (an instance listed
+    for the class), each instance's own order *)
+Definition class_props (dir : direction) (I : insts) (G : graph) (c : str) : list str :=
+  uniq_first (List.concat (map (fun ie : str * list str =>
+                                  if mem_str c (snd ie) then inst_props dir G (fst ie) else []) I)).
+
+Definition class_type_keys (dir : direction) (tau : str) (I : insts) (G : graph) (c p : str) : list str :=
+  uniq_first (List.concat (map (fun ie : str * list str =>
+                                  if mem_str c (snd ie) then inst_keys dir tau I G (fst ie) p else []) I)).
+
+(** the cardinalities one instance contributes for a key it has [n] times *)
+Definition cards_of (tau p : str) (n : N) : list ckey :=
+  if 0 <? n then (if str_eqb p tau then [CKn 1] else [CKn n; CKplus]) else [].
+
+Definition add_new_ckey (acc : list ckey) (c : ckey) : list ckey :=
+  if existsb (ckey_eqb c) acc then acc else acc ++ [c].
+
+(** scan left to right, keep what was not seen yet *)
+Definition uniq_ckeys (l : list ckey) : list ckey := fold_left add_new_ckey l [].
+
+Definition class_cards (dir : direction) (tau : str) (I : insts) (G : graph) (c p k : str) : list ckey :=
+  uniq_ckeys (List.concat (map (fun ie : str * list str =>
+                                  if mem_str c (snd ie)
+                                  then cards_of tau p (cnt dir tau I G (fst ie) p k) else []) I)).
